@@ -1,124 +1,50 @@
 import GceTcb.Model.Mrtd
 import GceTcb.Proofs.Codecs
+import GceTcb.Proofs.SnpTotal
 /-
-C08 (TDX half) — no panic: the GUID-table walk (private model), extractTDXMetadata, the facts that
+C08 (TDX half) — no panic: the GUID-table walk (shared model, lemmas of Proofs/SnpTotal.lean), extractTDXMetadata, the facts that
 validateTDXMetadataSections establishes, the section loop of parse, getTDHOBList and InitMemoryRegion.
 Core-only.
 -/
-namespace GceTcb.TdxGuidTable
-open GceTcb GceTcb.Codec GceTcb.Codecs
+namespace GceTcb.TdxMeta
+open GceTcb GceTcb.Codec GceTcb.Codecs GceTcb.GuidTable
 
 theorem goSlice_ok (site : String) (b : Bytes) (lo hi : Nat) (h : lo ≤ hi ∧ hi ≤ b.length) :
     goSlice site b lo hi = .ok (sliceOf b lo hi) := by
-  simp [goSlice, h]
+  have hc : (0 : Int) ≤ (lo : Int) ∧ (lo : Int) ≤ (hi : Int) ∧ (hi : Int) ≤ (b.length : Int) := by omega
+  unfold goSlice slice sliceOf
+  rw [if_pos hc]
+  simp only [Int.toNat_natCast]
+
+/-- the unsigned slice panics exactly outside `lo ≤ hi ≤ len` -/
+theorem goSlice_panic (site : String) (b : Bytes) (lo hi : Nat) (h : ¬ (lo ≤ hi ∧ hi ≤ b.length)) :
+    goSlice site b lo hi = .panic site := by
+  have hc : ¬ ((0 : Int) ≤ (lo : Int) ∧ (lo : Int) ≤ (hi : Int) ∧ (hi : Int) ≤ (b.length : Int)) := by omega
+  unfold goSlice slice
+  rw [if_neg hc]
 
 theorem sliceOf_length (b : Bytes) (lo hi : Nat) (h : lo ≤ hi ∧ hi ≤ b.length) : (sliceOf b lo hi).length = hi - lo := by
   simp [sliceOf]; omega
 
-theorem fwGuidEntry_no_panic (b : Bytes) (h : 18 ≤ b.length) : ¬ (fwGuidEntryFromBytes b).isPanic := by
-  unfold fwGuidEntryFromBytes Rec.dec
-  have : ¬ b.length < fwGuidEntryRec.size := by simp [Rec.size, fwGuidEntryRec]; omega
-  simp only [this, if_false, Rec.decBody]
-  split <;> simp [Outcome.isPanic]
-
-theorem getFwGuidTable_no_panic (fw : Bytes) : ¬ (getFwGuidTable fw).isPanic := by
-  unfold getFwGuidTable
-  by_cases h : fw.length < 32 + 18
-  · simp [h, Outcome.isPanic]
-  · simp only [h, if_false]
-    have hp := fwGuidEntry_no_panic (fw.drop (fw.length - (32 + 18))) (by simp; omega)
-    cases he : fwGuidEntryFromBytes (fw.drop (fw.length - (32 + 18))) with
-    | ok e =>
-      simp only []
-      by_cases h1 : e.guid ≠ footerUuid
-      · simp [h1, Outcome.isPanic]
-      · simp only [h1, if_false]
-        by_cases h2 : e.size < 18 ∨ fw.length < e.size + 32
-        · simp [h2, Outcome.isPanic]
-        · simp only [h2, if_false]
-          rw [goSlice_ok _ _ _ _ (by omega)]
-          simp [Outcome.isPanic]
-    | err c => simp [Outcome.isPanic]
-    | panic s => rw [he] at hp; simp [Outcome.isPanic] at hp
-
-theorem getFwGuidTable_length (fw t : Bytes) (h : getFwGuidTable fw = .ok t) : t.length ≤ fw.length := by
-  unfold getFwGuidTable at h
-  by_cases h0 : fw.length < 32 + 18
-  · simp [h0] at h
-  · simp only [h0, if_false] at h
-    cases he : fwGuidEntryFromBytes (fw.drop (fw.length - (32 + 18))) with
-    | ok e =>
-      rw [he] at h
-      simp only [] at h
-      by_cases h1 : e.guid ≠ footerUuid
-      · simp [h1] at h
-      · simp only [h1, if_false] at h
-        by_cases h2 : e.size < 18 ∨ fw.length < e.size + 32
-        · simp [h2] at h
-        · simp only [h2, if_false] at h
-          rw [goSlice_ok _ _ _ _ (by omega)] at h
-          injection h with h
-          rw [← h, sliceOf_length _ _ _ (by omega)]; omega
-    | err c => rw [he] at h; simp at h
-    | panic s => rw [he] at h; simp at h
-
-/-- the walk never panics and visits at most `unproc / 18` entries -/
-theorem walk_no_panic (table : Bytes) (unproc : Nat) (seen : List (Bytes × Bytes)) (ticks : Nat)
-    (hu : unproc ≤ table.length) :
-    ¬ (walk table unproc seen ticks).isPanic ∧
-    ∀ w, walk table unproc seen ticks = .ok w → 18 * (w.ticks - ticks) ≤ unproc ∧ ticks ≤ w.ticks := by
-  fun_induction walk table unproc seen ticks with
-  | case1 seen ticks => simp [Outcome.isPanic]
-  | case2 unproc seen ticks h0 h1 => simp [Outcome.isPanic]
-  | case3 unproc seen ticks h0 h1 eb heb e he h2 => simp [Outcome.isPanic]
-  | case4 unproc seen ticks h0 h1 eb heb e he h2 h3 => simp [Outcome.isPanic]
-  | case5 unproc seen ticks h0 h1 eb heb e he h2 h3 blk hb ih =>
-    obtain ⟨i1, i2⟩ := ih (by omega)
-    refine ⟨i1, ?_⟩
-    intro w hw
-    have := i2 w hw
-    omega
-  | case6 unproc seen ticks h0 h1 eb heb e he h2 h3 c hb =>
-    rw [goSlice_ok _ _ _ _ (by omega)] at hb; simp at hb
-  | case7 unproc seen ticks h0 h1 eb heb e he h2 h3 s hb =>
-    rw [goSlice_ok _ _ _ _ (by omega)] at hb; simp at hb
-  | case8 unproc seen ticks h0 h1 eb heb c he => simp [Outcome.isPanic]
-  | case9 unproc seen ticks h0 h1 eb heb s he =>
-    rw [goSlice_ok _ _ _ _ (by omega)] at heb
-    injection heb with heb
-    have := fwGuidEntry_no_panic eb (by rw [← heb, sliceOf_length _ _ _ (by omega)]; omega)
-    rw [he] at this; simp [Outcome.isPanic] at this
-  | case10 unproc seen ticks h0 h1 c heb =>
-    rw [goSlice_ok _ _ _ _ (by omega)] at heb; simp at heb
-  | case11 unproc seen ticks h0 h1 s heb =>
-    rw [goSlice_ok _ _ _ _ (by omega)] at heb; simp at heb
-
-theorem getFwGuidToBlockMap_no_panic (fw : Bytes) :
-    ¬ (getFwGuidToBlockMap fw).isPanic ∧ ∀ w, getFwGuidToBlockMap fw = .ok w → 18 * w.ticks ≤ fw.length := by
-  unfold getFwGuidToBlockMap
-  have hp := getFwGuidTable_no_panic fw
-  cases ht : getFwGuidTable fw with
-  | ok t =>
-    simp only []
-    have := walk_no_panic t t.length [] 0 (Nat.le_refl _)
-    refine ⟨this.1, ?_⟩
-    intro w hw
-    have h1 := this.2 w hw
-    have h2 := getFwGuidTable_length fw t ht
-    omega
+/-- the shared GUID-table walk (Model/GuidTable.lean) never panics: `Proofs/SnpTotal.lean` -/
+theorem getFwGuidToBlockMap_no_panic (fw : Bytes) : ¬ (getFwGUIDToBlockMap fw).isPanic := by
+  cases h : getFwGUIDToBlockMap fw with
+  | ok m => simp [Outcome.isPanic]
   | err c => simp [Outcome.isPanic]
-  | panic s => rw [ht] at hp; simp [Outcome.isPanic] at hp
+  | panic p => exact absurd h (Proofs.SnpTotal.getFwGUIDToBlockMap_no_panic fw p)
 
-end GceTcb.TdxGuidTable
+end GceTcb.TdxMeta
 
 namespace GceTcb.TdxMeta
-open GceTcb GceTcb.Codec GceTcb.Codecs GceTcb.TdxGuidTable GceTcb.Intervals
+open GceTcb GceTcb.Codec GceTcb.Codecs GceTcb.Intervals
 
 /-- What validateTDXMetadataSections establishes for every section (with the repair). -/
 def SecOK (fwLen : Nat) (s : TdxSection) : Prop :=
   s.memorySize ≤ maxInitialMemory ∧ s.memoryBase + s.memorySize ≤ 2 ^ 52 ∧ s.sectionType ≤ 3 ∧
   ((s.sectionType = 0 ∨ s.sectionType = 1) →
     s.memorySize = s.dataSize ∧ s.dataOffset + s.dataSize ≤ fwLen ∧ s.dataSize ≠ 0)
+
+instance (n : Nat) (s : TdxSection) : Decidable (SecOK n s) := by unfold SecOK; exact inferInstance
 
 theorem cfvCheck_ok (fwLen : Nat) (s : TdxSection) (st st' : VState) (h : cfvCheck fwLen s st = .ok st') :
     s.memorySize = s.dataSize ∧ s.dataOffset + s.dataSize ≤ fwLen ∧ s.dataSize ≠ 0 ∧ st'.total = st.total := by
@@ -236,11 +162,12 @@ theorem validate_no_panic (fwLen : Nat) (md : TdxMetadata) : ¬ (validateTDXMeta
 end GceTcb.TdxMeta
 
 namespace GceTcb.TdxMeta
-open GceTcb GceTcb.Codec GceTcb.Codecs GceTcb.TdxGuidTable GceTcb.Intervals
+open GceTcb GceTcb.Codec GceTcb.Codecs GceTcb.Intervals
 
-theorem guidTable_ok_length (fw : Bytes) (w : WalkRes) (h : getFwGuidToBlockMap fw = .ok w) : 50 ≤ fw.length := by
-  unfold getFwGuidToBlockMap getFwGuidTable at h
-  by_cases h0 : fw.length < 32 + 18
+theorem guidTable_ok_length (fw : Bytes) (m : GuidTable.BlockMap) (h : GuidTable.getFwGUIDToBlockMap fw = .ok m) :
+    50 ≤ fw.length := by
+  unfold GuidTable.getFwGUIDToBlockMap GuidTable.getFwGUIDTable at h
+  by_cases h0 : fw.length < 50
   · simp [h0] at h
   · omega
 
@@ -330,12 +257,12 @@ theorem decodeAndValidate_ok (fwLen : Nat) (desc : Bytes) (md : TdxMetadata) (h 
 
 theorem extract_no_panic (fw : Bytes) : ¬ (extractTDXMetadata fw).isPanic := by
   unfold extractTDXMetadata
-  have hg := (getFwGuidToBlockMap_no_panic fw).1
-  cases hw : getFwGuidToBlockMap fw with
+  have hg := getFwGuidToBlockMap_no_panic fw
+  cases hw : GuidTable.getFwGUIDToBlockMap fw with
   | ok w =>
     simp only []
     have hL := guidTable_ok_length fw w hw
-    cases hb : lookup w.blocks tdxOffsetUuid with
+    cases hb : GuidTable.BlockMap.lookup w tdxOffsetUuid with
     | none => simp [Outcome.isPanic]
     | some block =>
       simp only []
@@ -351,11 +278,11 @@ theorem extract_no_panic (fw : Bytes) : ¬ (extractTDXMetadata fw).isPanic := by
 theorem extract_ok (fw : Bytes) (md : TdxMetadata) (h : extractTDXMetadata fw = .ok md) :
     Validated (fw.length % 2 ^ 32) md ∧ 32 * md.sections.length ≤ fw.length ∧ 50 ≤ fw.length := by
   unfold extractTDXMetadata at h
-  cases hw : getFwGuidToBlockMap fw with
+  cases hw : GuidTable.getFwGUIDToBlockMap fw with
   | ok w =>
     rw [hw] at h; simp only [] at h
     have hL := guidTable_ok_length fw w hw
-    cases hb : lookup w.blocks tdxOffsetUuid with
+    cases hb : GuidTable.BlockMap.lookup w tdxOffsetUuid with
     | none => rw [hb] at h; simp at h
     | some block =>
       rw [hb] at h; simp only [] at h
@@ -370,10 +297,54 @@ theorem extract_ok (fw : Bytes) (md : TdxMetadata) (h : extractTDXMetadata fw = 
   | err c => rw [hw] at h; simp at h
   | panic p => rw [hw] at h; simp at h
 
+/-- SectionCount is a uint32: accepted metadata has fewer than 2^32 sections (whatever the image size). -/
+theorem extract_count (fw : Bytes) (md : TdxMetadata) (h : extractTDXMetadata fw = .ok md) :
+    md.sections.length < 2 ^ 32 := by
+  unfold extractTDXMetadata at h
+  cases hw : GuidTable.getFwGUIDToBlockMap fw with
+  | ok w =>
+    rw [hw] at h; simp only [] at h
+    cases hb : GuidTable.BlockMap.lookup w tdxOffsetUuid with
+    | none => rw [hb] at h; simp at h
+    | some block =>
+      rw [hb] at h; simp only [] at h
+      cases hd : locateMetadata fw block with
+      | ok desc =>
+        rw [hd] at h; simp only [] at h
+        unfold decodeAndValidate at h
+        cases hmd : tdxMetadataFromBytes desc with
+        | ok md' =>
+          rw [hmd] at h; simp only [] at h
+          cases hvv : validateTDXMetadataSections (fw.length % 2 ^ 32) md' with
+          | ok u =>
+            rw [hvv] at h; simp only [] at h
+            injection h with h; subst h
+            unfold tdxMetadataFromBytes at hmd
+            cases hh : tdxDescriptorFromBytes desc with
+            | ok hdr =>
+              rw [hh] at hmd; simp only [] at hmd
+              have hr := (Rec.dec_canon tdxDescriptorLaws .errShort desc hdr hh).2.1
+              by_cases hc : hdr.sectionCount * 32 > desc.length - 16
+              · simp [hc] at hmd
+              · simp only [hc, if_false] at hmd
+                injection hmd with hmd; subst hmd
+                simp only [tdxReadSections_length]
+                exact hr.2.2.2
+            | err c => rw [hh] at hmd; simp at hmd
+            | panic p => rw [hh] at hmd; simp at hmd
+          | err c => rw [hvv] at h; simp at h
+          | panic p => rw [hvv] at h; simp at h
+        | err c => rw [hmd] at h; simp at h
+        | panic p => rw [hmd] at h; simp at h
+      | err c => rw [hd] at h; simp at h
+      | panic p => rw [hd] at h; simp at h
+  | err c => rw [hw] at h; simp at h
+  | panic p => rw [hw] at h; simp at h
+
 end GceTcb.TdxMeta
 
 namespace GceTcb.TdxHob
-open GceTcb GceTcb.Codec GceTcb.Codecs GceTcb.TdxGuidTable GceTcb.Intervals GceTcb.TdxMeta
+open GceTcb GceTcb.Codec GceTcb.Codecs GceTcb.Intervals GceTcb.TdxMeta
 
 /-- Invariant of the section loop of parse. -/
 structure PInv (st : PState) : Prop where
